@@ -133,7 +133,7 @@ Definition args_of (c : case) : lz_args float :=
   MkArgs (c_callable c) (tensor_mm (if c_f32 c then ArFloat32 else ArFloat) nv (c_A c))
          (c_max_iter c) (c_n c) (c_batch c)
          (if c_init c is Some (d, od, b, n', nv, X) then Some (MkInit d od b n' nv X) else None)
-         (c_num_init c) (c_randn c) (c_tol c) brk_lit n_extra_lit (c_debug c).
+         (c_num_init c) (c_randn c) (c_tol c) brk_lit n_extra_lit (c_debug c) first_guard_lit inner_abs_lit.
 
 Definition run_model (c : case) : res (lz_out float) :=
   lanczos_tridiag (if c_f32 c then ArFloat32 else ArFloat) (args_of c).
@@ -264,9 +264,9 @@ Fixpoint bad_scases (cs : seq scase) (i : nat) : seq nat :=
   end.
 
 (* shapes handed back by RootDecomposition.forward (api 0: root / inverse root), Diagonalization.forward (api 1:
-   eigenvalues, q_mat) and _postprocess_lanczos_root_inv_decomp (api 2).  In the cells of known finding
-   C09-leading-singleton-batch (a leading batch dimension of size 1 is squeezed away) a tree that returns the
-   specified shape is accepted as well: the harness's direct predicate tells the two apart. *)
+   eigenvalues, q_mat) and _postprocess_lanczos_root_inv_decomp (api 2), for the version of each that the tree under
+   test contains (pinned: a leading batch dimension of size 1 is squeezed away, known finding
+   C09-leading-singleton-batch; or repaired) -- probed on every run, gen/Consts.v *)
 Record hcase := MkHCase {
   h_api : nat; h_nprobe : nat; h_batch : seq nat; h_n : nat; h_m : nat;
   h_obs : seq nat;                (* shape of the root / inverse root / q_mat *)
@@ -275,11 +275,9 @@ Record hcase := MkHCase {
 Definition check_hcase (c : hcase) : nat :=
   let b := h_batch c in let n := h_n c in let m := h_m c in
   match h_api c with
-  | 0 => if (root_forward_shape (lanczos_lead (h_nprobe c) b) n m == h_obs c)
-            || (h_obs c == lanczos_lead (h_nprobe c) b ++ [:: n; m]) then 0 else 1
-  | 1 => if (diag_forward_shape b n m == (h_obs_evals c, h_obs c))
-            || ((h_obs_evals c, h_obs c) == (b ++ [:: m], b ++ [:: n; m])) then 0 else 1
-  | _ => if (postprocess_shape b n m == h_obs c) || (h_obs c == b ++ [:: n; m]) then 0 else 1
+  | 0 => if root_forward_shape root_shape_fixed_lit (h_nprobe c) (lanczos_lead (h_nprobe c) b) n m == h_obs c then 0 else 1
+  | 1 => if diag_forward_shape diag_shape_fixed_lit b n m == (h_obs_evals c, h_obs c) then 0 else 1
+  | _ => if postprocess_shape post_shape_fixed_lit b n m == h_obs c then 0 else 1
   end.
 Fixpoint bad_hcases (cs : seq hcase) (i : nat) : seq nat :=
   match cs with
